@@ -1315,3 +1315,64 @@ PROPS["C11"]["level_note"] += (' Ring-view monitor (coq/Model/FdlRing.v: rmonito
     '7 -> 2, which the rule accepts, while it rejects the same event with 7 -> 7 (remove_station without the wrap-around).')
 PROPS["C11"]["partial_gap"] += (' Ring-view monitor P11_removal_passes_to_next: sound on model transcripts without exclusions '
     '(C11_ring_monitor_sound).')
+# ---- agent nb: the COMPOSED N-station model (coq/Model/Multi.v, coq/Proofs/MultiProofs.v; statements in coq/Properties/BusLevel.v) ------
+# Texts only.  What is proved: every STATION-LOCAL guarantee carries over to every station of N model stations composed on an
+# arbitrary medium under an arbitrary schedule.  What is not: the global halves (token uniqueness, no overlap, rotation order / time).
+_NB = ('COMPOSED N-STATION MODEL (Model/Multi.v, Proofs/MultiProofs.v, theorems in Properties/BusLevel.v): multi_run = N copies of Fdl.poll '
+       '(any N, own parameters and any number of applications each) on a shared medium M under a schedule (list of (station, set_online | '
+       'set_offline | poll at time t)); M is an ARBITRARY function history of all polls -> station -> time -> (new receive bytes, transmitter '
+       'busy), universally quantified in every theorem (lossy, corrupting, delaying, inventing media included; medium_bytes M: it delivers '
+       'octets); ideal_medium (byte timing of harness/src/bus.rs) is one instance, with a computed two-station run that exchanges the token '
+       '(Multi.ex2_token_exchange). Multi_station_transcripts (NO hypotheses): the transcript of station i of the composed system IS the '
+       'single-station model_transcript of the i-th configured station under the inputs the medium gave it, and every poll record is a poll '
+       'of the single-station model; Multi_station_inputs_ok: these inputs satisfy ins_ok when per station the poll times are > 0, < 2^62 and '
+       'strictly increasing (sched_ok; no relation between the clocks of different stations). ')
+PROPS["C01"]["level_note"] += (' ' + _NB + 'Hence for C01: Multi_monitors_c01_c05 / Multi_monitors_silent - no rule of C01 (and, with '
+    'app_sends_data / app_sends_requests, no rule of the FDL monitors at all) is reported on ANY station of the composed system, for every N, '
+    'medium and schedule; C01_multi_sync_pause (no hypotheses): a station of the composed system hands bytes to its PHY only in a poll in which '
+    'the medium reported its transmitter idle and its last_bus_activity is more than 33 bit times old; C01_multi_who_may_transmit: and it is '
+    'then entitled in its own view (may_transmit, the disjunction of C01_who_may_transmit, with its configured parameters).')
+PROPS["C01"]["partial_gap"] += (' UPDATE (composed model): the station-local obligations are now theorems about every station of the composed '
+    'N-station model on an arbitrary medium (C01_multi_sync_pause, C01_multi_who_may_transmit, Multi_monitors_c01_c05). STILL NOT proved: the '
+    'GLOBAL half - that the stations\' own views agree (at most one token holder), hence that no two transmissions overlap on the medium; that '
+    'needs assumptions on the medium (it is false for a medium that loses a token telegram) and the discharge of the timing hypotheses of '
+    'C01_compose (hand-over, reply-in-slot and claim races against poll jitter); it remains a TEST (bus-level monitors on N real stations).')
+PROPS["C05"]["level_note"] += (' ' + _NB + 'Hence for C05: C05_multi_never_panics (Properties/BusLevel.v) - for every medium that delivers '
+    'octets, every number of stations with builder-valid parameters and total applications, every schedule with poll times in [0, 2^62) (not even '
+    'monotone): the composed system can be created and the run returns Ok - no station reaches a panic site or exhausts a loop bound - and every '
+    'station satisfies Rep afterwards; Multi_monitors_c01_c05: R05_panic / R05_timeout are never reported on a station of the composed system.')
+PROPS["C05"]["partial_gap"] += ('; the composed N-station statement (C05_multi_never_panics) is for abstract total applications (apps_total), '
+    'not re-done for the contract-based real application models')
+PROPS["C06"]["level_note"] += (' ' + _NB + 'Hence for C06: Multi_monitors_c01_c06_c13 - no rule of C06 (no_claim_after_timeout, no_backoff) is '
+    'reported on any station of the composed system (app_sends_data); C06_multi_claim_needs_silence: a station of the composed system enters '
+    'ClaimToken only after its own time-out (6 + 2 TS) Tslot of recorded silence and with no new receive bytes in that poll; C06_multi_backoff '
+    '(no hypotheses): a station waiting for an answer that finds any other complete telegram (e.g. another station\'s token) gives the token up in '
+    'that poll.')
+PROPS["C06"]["partial_gap"] += (' UPDATE (composed model): the station-local recovery mechanisms are theorems about every station of the composed '
+    'N-station model on an arbitrary medium (C06_multi_claim_needs_silence, C06_multi_backoff, Multi_monitors_c01_c06_c13). STILL NOT proved: '
+    'the property proper - that N composed stations re-establish ONE circulating token within a bound after a fault plan (needs a medium that '
+    'eventually delivers, and the global argument that the staggered time-outs elect exactly one claimant; the lock-step class F21 shows it is '
+    'false without schedule assumptions).')
+PROPS["C13"]["level_note"] += (' ' + _NB + 'Hence for C13: C13_multi_hold_rule (no hypotheses): every poll of every station of the composed '
+    'system obeys the hold rule of C13_hold_rule_poll; C13_multi_station_history: the history of every station of a composed run is a '
+    'station_history - the per-station hypothesis of C13_rotation_bound_stations is DISCHARGED by the composed model; C13_multi_visits_ok: every '
+    'token visit of every station satisfies sv_ok (rounds before the deadline or the single high-priority round after it, one deadline per visit '
+    '<= previous token time + TTR) and consecutive visits are linked; Multi_monitors_c01_c06_c13: no rule of C13 is reported on any station.')
+PROPS["C13"]["partial_gap"] += (' UPDATE (composed model): that N model stations composed on a shared medium produce station histories '
+    '(station_history, sv_ok per visit, linked visits) IS now proved for every medium and schedule (C13_multi_station_history, '
+    'C13_multi_visits_ok). STILL NOT proved: the RING hypotheses of C13_rotation_bound_stations for the composed system - the order of the visits '
+    '(stable ring, one holder at a time) and timing_ok C O - which need a well-behaved medium and a poll-period bound; the rotation bound for '
+    'the composed system therefore remains conditional.')
+# agent nb, stretch (coq/Proofs/MultiHandover.v): one GLOBAL step on the concrete medium
+PROPS["C01"]["level_note"] += (' GLOBAL STEP on the concrete medium (Proofs/MultiHandover.v): Multi_ideal_delivers_rest (what ideal_medium hands to a '
+    'station when the last transmission on the medium is complete and everything earlier was delivered) and Multi_handover_step_partial: in a '
+    'composed system of any size on ideal_medium, when station ia has transmitted the token telegram to ib and supervises its pass '
+    '(CheckTokenPass, not a holder in its own view) and ib idles in the ring with ia as predecessor (the already arrived bytes of the telegram '
+    'in its buffer, other stations polling but nobody transmitting), the poll of ib at a time at which the telegram is complete returns, '
+    'transmits nothing and makes ib the token holder in its own view, ia unchanged: exactly one of the two holds the token after the step. '
+    'Multi_handover_hypotheses_satisfiable: the computed two-station run is in such a state after 163 polls.')
+PROPS["C01"]["partial_gap"] += (' Multi_handover_step_partial is ONE global step (labelled _partial), not an invariant: token uniqueness over all '
+    'reachable states of the composed system is not proved (missing: an inductive invariant tying all stations\' views to the medium\'s history '
+    'through claims, GAP polls, retries and removals - a receiver still in CheckTokenPass, as in a two-station ring, is not covered by the lemma -, '
+    'under a loss-free medium, a poll period small against Tslot and distinct addresses).')
+PROPS["C05"].setdefault("coq_extra", []); PROPS["C05"]["coq_extra"] += ["Properties/BusLevel.v"] if "Properties/BusLevel.v" not in PROPS["C05"]["coq_extra"] else []
